@@ -1388,6 +1388,20 @@ func main() {
 	c.Cases("failover", scale(24, 400), func(i int, r *vlib.Rand) {
 		failoverScenario(c, r, i, fmt.Sprint("failover#", i))
 	})
+	// faults while frames larger than the client's 2 MiB write buffer are on their way: the
+	// buffered writer then writes straight to the socket and reports partial writes
+	c.Cases("fault-big", scale(10, 160), func(i int, r *vlib.Rand) {
+		nc := 1 + r.Intn(2)
+		var sch []cut
+		for k := 0; k < nc; k++ {
+			sch = append(sch, cut{After: r.Range(0, 6<<20), RST: r.Intn(3) != 0, Refuse: []int{0, 0, 1}[r.Intn(3)]})
+		}
+		runScenario(c, scenario{kind: "fault-big", senders: r.Range(1, 3), perSender: r.Range(4, 9), gomax: gomaxes[i%4], bigFrames: true, schedule: sch}, r, fmt.Sprint("fault-big#", i))
+	})
+	c.Cases("queue-fault-big", scale(6, 100), func(i int, r *vlib.Rand) {
+		sch := []cut{{After: r.Range(0, 6<<20), RST: r.Bool(), Refuse: 0}}
+		runScenario(c, scenario{kind: "queue-fault-big", senders: r.Range(1, 3), perSender: r.Range(4, 9), gomax: gomaxes[i%4], useQueue: true, queueSize: 0, bg: true, bigFrames: true, schedule: sch}, r, fmt.Sprint("queue-fault-big#", i))
+	})
 	// production path: singleton with its background goroutine, healthy connection
 	c.Cases("singleton-healthy", scale(2, 16), func(i int, r *vlib.Rand) {
 		runScenario(c, scenario{kind: "singleton-healthy", senders: r.Range(1, 6), perSender: 60, gomax: gomaxes[(i+2)%4], singleton: true}, r, fmt.Sprint("singleton-healthy#", i))
